@@ -1,7 +1,8 @@
 #!/bin/bash
 # tools/seeded_matrix.sh [ids...] : run, for every seeded change under /verif/seeded, the check of the property it
 # breaks against a scratch worktree of /repo with the change applied (never /repo itself); one line per change.
-cd /verif
+HERE=${VERIF_HOME:-/verif}   # a snapshot of /verif (git worktree + .venv symlink) can be used so that edits of /verif do not disturb a running matrix
+cd $HERE
 SCR=${VERIF_SCRATCH:-/var/tmp}/seedrun.$$
 ids=${@:-$(ls seeded | grep -E '^C[0-9]+-m[0-9]+$')}
 git -C /repo worktree remove --force $SCR >/dev/null 2>&1
@@ -10,7 +11,7 @@ mkdir -p $SCR.out
 for id in $ids; do
   prop=${id%%-*}
   git -C $SCR checkout -q -- . ; git -C $SCR clean -fdq
-  if ! git -C $SCR apply --3way /verif/seeded/$id/patch.diff >/dev/null 2>&1; then echo "$id: patch does not apply"; continue; fi
+  if ! git -C $SCR apply --3way $HERE/seeded/$id/patch.diff >/dev/null 2>&1; then echo "$id: patch does not apply"; continue; fi
   git -C $SCR reset -q
   extra=$(python3 -c "import json; print(' '.join(json.load(open('seeded/$id/meta.json')).get('also_check', [])))" 2>/dev/null)
   res=""
@@ -25,5 +26,5 @@ for id in $ids; do
   done
   echo "$id:$res"
 done
-[ -f $SCR.out/matrix.tsv ] && cp $SCR.out/matrix.tsv ${VERIF_MATRIX_OUT:-/verif/build/matrix.tsv}
+[ -f $SCR.out/matrix.tsv ] && cp $SCR.out/matrix.tsv ${VERIF_MATRIX_OUT:-$HERE/build/matrix.tsv}
 git -C /repo worktree remove --force $SCR >/dev/null 2>&1; rm -rf $SCR.out
